@@ -301,10 +301,10 @@ def rule_empty_station(ck, rid="C19.R9"):
 
 
 def run(ck):
-    rule_empty_station(ck)
-    rule_plugin(ck)
-    rule_fifo(ck)
-    rule_unplug(ck)
-    rule_early(ck)
-    rule_simulator(ck)
-    rule_random(ck)
+    ck.attempt(rule_empty_station)
+    ck.attempt(rule_plugin)
+    ck.attempt(rule_fifo)
+    ck.attempt(rule_unplug)
+    ck.attempt(rule_early)
+    ck.attempt(rule_simulator)
+    ck.attempt(rule_random)
